@@ -92,10 +92,12 @@ def run(chk):
         if "hash_based" in engines:
             small = model and k == 1 and max(len(x) for x in xs) <= 6
             mop = {"op": "lookupdb", "ref": xs, "qs": xs, "k": k, "mode": "lev", "pdist": True, "A": AA} if small else None
-            b.add("hash_based|" + label, lambda: nn.hash_based(xs, max_edits=k), mop, sop, meta)
+            b.add("hash_based|" + label, lambda: nn.hash_based(xs, max_edits=k), mop, sop, meta,
+                  factory=lambda c: (lambda: nn.hash_based(c, max_edits=k), {"op": "brute_self", "xs": c, "k": k, "mode": "lev"}))
         if "kdtree" in engines:
             mop = {"op": "kdtree", "xs": xs, "k": k, "c": comp, "A": AA, "mode": "lev"} if model else None
-            b.add("kdtree|" + label, lambda: nn.kdtree(xs, max_edits=k, compression=comp), mop, sop, meta)
+            b.add("kdtree|" + label, lambda: nn.kdtree(xs, max_edits=k, compression=comp), mop, sop, meta,
+                  factory=lambda c: (lambda: nn.kdtree(c, max_edits=k, compression=comp), {"op": "brute_self", "xs": c, "k": k, "mode": "lev"}))
         b.add("symdel|" + label, lambda: nn.symdel(xs, max_edits=k), None, sop, meta)
 
     for alpha, pool in pools:
